@@ -11,7 +11,8 @@ from lib import codec, gen, vf
 import ber
 
 FAULTS = ["deliver", "drop", "dup", "late", "wrongid", "wrongcomm", "wrongver", "trunc", "garbage_then_ok", "skip_then_ok", "report",
-          "id_minus_2_31", "id_plus_2_32", "id_plus_1", "comm_extended", "comm_prefix", "comm_empty"]
+          "id_minus_2_31", "id_plus_2_32", "id_plus_1", "comm_extended", "comm_prefix", "comm_empty",
+          "id_minus_2_32", "id_plus_2_33", "id_plus_2_40", "id_plus_2_48", "id_minus_2_56", "id_plus_2_62"]
 
 
 def value_vb(k):
@@ -35,9 +36,9 @@ def build_script(word):
             own = []
         elif f == "wrongid":
             own = [{"vbs": value_vb(k + 800).hex(), "rid": 12345 + k, "_class": "skip", "_k": k + 800}]
-        elif f in ("id_minus_2_31", "id_plus_2_32", "id_plus_1"):
+        elif f in ID_SHIFTS:
             # an id that differs from the outstanding one only above bit 30 / by one: never the outstanding id
-            shift = {"id_minus_2_31": "same-2147483648", "id_plus_2_32": "same+4294967296", "id_plus_1": "same+1"}[f]
+            shift = ID_SHIFTS[f]
             own = [{"vbs": value_vb(k + 500).hex(), "rid": shift, "_class": "never", "_k": k + 500}, ok]
         elif f in ("comm_extended", "comm_prefix", "comm_empty"):
             cm = {"comm_extended": b"publicX", "comm_prefix": b"publi", "comm_empty": b""}[f]
@@ -96,6 +97,11 @@ def simulate(word, replies, rids):
     return out
 
 
+ID_SHIFTS = {"id_minus_2_31": "same-2147483648", "id_plus_2_32": "same+4294967296", "id_plus_1": "same+1",
+             "id_minus_2_32": "same-4294967296", "id_plus_2_33": "same+8589934592", "id_plus_2_40": "same+1099511627776",
+             "id_plus_2_48": "same+281474976710656", "id_minus_2_56": "same-72057594037927936", "id_plus_2_62": "same+4611686018427387904"}
+
+
 def main(argv):
     c = vf.Check("C04", argv)
     thorough = c.tier == "thorough"
@@ -128,10 +134,14 @@ def main(argv):
     n = 0
     dis = 0
     model_lines, model_meta = [], []
-    if res is None:
+    retry = []
+    batches = [(scs, res, log)]
+    while batches:
+      bscs, res, log = batches.pop(0)
+      if res is None:
         c.errors.append("API worker failed: " + log[-1500:])
-    else:
-        for sc, rec in zip(scs, res["records"]):
+      else:
+        for sc, rec in zip(bscs, res["records"]):
             if "driver_error" in rec:
                 c.errors.append("API driver error: " + rec["driver_error"])
                 continue
@@ -164,13 +174,50 @@ def main(argv):
                     else:
                         what = "ended with %s" % got
                         key = "outcome:" + got
+                    if got in ("TimeoutError", "BlockingIOError") and wv.startswith("RET") and not sc.get("_retried"):
+                        # the reply may simply have been slower than the 30 ms timeout on a loaded machine: judged again below
+                        retry.append(sc)
+                        break
                     c.violation("%s/%s faults %s: call %d %s; expected %s" % (sc["version"], sc["mode"], list(w), k, what, wv),
                                 {"scenario": {kk: vv for kk, vv in sc.items() if not kk.startswith("_")}, "faults": list(w), "call": k,
                                  "observed": got, "expected": wv, "request_ids": rids}, key=key)
                     break
+      if retry:
+        again = [dict(sc, timeout=0.6, _retried=True) for sc in retry]
+        retry = []
+        c.coverage["scenarios_repeated_with_longer_timeout"] = c.coverage.get("scenarios_repeated_with_longer_timeout", 0) + len(again)
+        r2, l2 = vf.run_api_worker("C04", {"scenarios": [{k: v for k, v in sc.items() if not k.startswith("_")} for sc in again]}, timeout=1500)
+        batches.append((again, r2, l2))
+    # ---- floods: very many non-matching datagrams inside ONE call do not end the wait; the reply behind them is delivered
+    fl = []
+    for ver, mode, nstray in ([("v2c", "sync", 1100), ("v1", "sync", 2100), ("v2c", "async", 1100)] +
+                              ([("v2c", "sync", 70000), ("v2c", "async", 70000)] if thorough else [])):
+        strays = [{"vbs": value_vb(7).hex(), "rid": "same+%d" % (1 + i % 5), "delay": (-0.0003 if mode == "async" else (-0.001 if i % 64 == 0 else 0))} for i in range(nstray)]
+        fl.append({"version": ver, "mode": mode, "timeout": 30.0, "watchdog": 90.0, "community": "public", "_n": nstray,
+                   "steps": [{"op": "get", "args": ["1.3.6.1.9.1"], "replies": [strays + [{"vbs": value_vb(1).hex(), "delay": -0.05}]]}]})
+    resf, logf = vf.run_api_worker("C04", {"scenarios": [{k: v for k, v in sc.items() if not k.startswith("_")} for sc in fl]}, timeout=1500)
+    if resf is None:
+        c.violation("the process running a session died or hung while one call skipped a flood of non-matching datagrams; nothing was delivered: " + logf.strip()[-200:],
+                    {"worker_log": logf[-1000:]}, key="flood-process")
+    else:
+        for sc, rec in zip(fl, resf["records"]):
+            if "driver_error" in rec:
+                c.errors.append("API driver error: " + rec["driver_error"])
+                continue
+            out = rec["steps"][0]
+            n += 1
+            c.count(("flood", sc["version"], sc["mode"], sc["_n"]), True)
+            got = out.get("value") or out.get("exc")
+            if got != "int:1001":
+                c.violation("%s/%s: after %d well-formed datagrams with foreign request-ids inside one call the matching reply was not delivered (%s after %.2f s, timeout 30 s)"
+                            % (sc["version"], sc["mode"], sc["_n"], got, out.get("wall", 0)),
+                            {"scenario": {"version": sc["version"], "mode": sc["mode"], "strays": sc["_n"], "timeout": 30.0}, "outcome": {k: out.get(k) for k in ("kind", "value", "exc", "wall")}},
+                            key="flood-ends-wait")
     # ---- v3 sessions: a datagram failing any of the user / authoritative engine id / message id / request-id tests is skipped and
     # the genuine reply behind it is delivered (the acceptance condition itself is the subject of C10's theorems)
     V3F = {"msgid": {"msgid": "same+1"}, "msgid-2^31": {"msgid": "same-2147483648"}, "rid": {"rid": "same+1"}, "rid+2^32": {"rid": "same+4294967296"},
+           "msgid+2^32": {"msgid": "same+4294967296"}, "msgid-2^32": {"msgid": "same-4294967296"}, "msgid+2^40": {"msgid": "same+1099511627776"},
+           "msgid+2^62": {"msgid": "same+4611686018427387904"}, "rid-2^32": {"rid": "same-4294967296"}, "rid+2^48": {"rid": "same+281474976710656"},
            "user": {"user": b"other".hex()}, "user-ext": {"user": b"u0x".hex()}, "usm-engine": {"engine": "80001f8880ffffffff", "ctx_engine": "80001f8880a1b2c3d4"},
            "usm-engine-ext": {"engine": "80001f8880a1b2c3d400", "ctx_engine": "80001f8880a1b2c3d4"}, "both-engines": {"engine": "80001f8880ffffffff"}}
     v3scs = []
@@ -180,7 +227,7 @@ def main(argv):
             bad = dict({"vbs": value_vb(500 + k).hex()}, **f)
             steps.append({"op": "get", "args": ["1.3.6.1.9.%d" % k], "replies": [[bad, {"vbs": value_vb(k).hex()}]], "_name": name})
             steps.append({"op": "get", "args": ["1.3.6.1.9.%d" % k], "replies": [[bad]], "_name": name + " (alone)"})
-        v3scs.append({"version": "v3", "mode": mode, "timeout": 0.03, "steps": steps,
+        v3scs.append({"version": "v3", "mode": mode, "timeout": 0.2, "steps": steps,
                       "v3": {"user": "u0", "auth": None, "priv": None, "engine_id": "80001f8880a1b2c3d4", "agent_engine_id": "80001f8880a1b2c3d4", "boots": 1, "time": 1}})
     res3, log3 = vf.run_api_worker("C04", {"scenarios": [dict(sc, steps=[{kk: vv for kk, vv in st.items() if not kk.startswith("_")} for st in sc["steps"]]) for sc in v3scs]})
     if res3 is None:
